@@ -536,7 +536,7 @@ def flatAgrees (prog : Program Float) (core : PV.Core.Stmt Float) (seed fuel : N
   let (st, r) := runProgram FloatSem.sem env prog fuel 0.0
   let ts := st.trace.reverse
   let (tc, cdone) := match PV.Core.exec FloatSem.sem env fuel core ⟨fun _ => 0.0, []⟩ with
-    | .done s => (s.trace.reverse, true)
+    | .ok _ s => (s.trace.reverse, true)
     | .timeout s => (s.trace.reverse, false)
   let cp := commonPrefix ts tc
   let sdone := match r with | .ok _ => true | .error _ => false
@@ -558,7 +558,7 @@ def coreCompare (j : Json) : Except String Json := do
       | .ok seed, .ok fuel, .ok pool => flatAgrees prog core seed fuel pool
       | _, _, _ => "not-run"
     if flat != "ok" && flat != "not-run" then pure (Json.mkObj [("verdict", Json.str "flatten-disagrees"), ("detail", Json.str flat)]) else
-    let model := PV.Core.comp (fun n => Float.ofNat n) core 0
+    let model := PV.Core.comp (fun n => Float.ofNat n) core 0 0 0
     match parseProgram text with
     | .error e => pure (Json.mkObj [("verdict", Json.str "parse-error"), ("detail", Json.str e)])
     | .ok pp =>
